@@ -541,6 +541,32 @@ def step (line : String) : String :=
         match field iw "msg", field iw "read" with
         | some a, some b => if a == b then answer impl true else answer s!"msg={a} read={a}" false
         | _, _ => "bad-op"
+      else if op == "unkcodec" then
+        -- a batch with an unknown compression codec: the loop LTS says `read` → errUnknownCodec is "sendError; break
+        -- readLoop" (back to the top of the outer loop, no connection, one more error for the application, nothing
+        -- delivered); the driver reports what the real loop did with its connections meanwhile
+        let s0 : RR := { offset := -2 }
+        let s1 := rrun {} s0 [.initOk 100 102, .sleepOk, .unknownCodec, .sleepOk, .initOk 100 102, .sleepOk, .unknownCodec]
+        let model := s!"errs=4 msgs={s1.msgs.length} leak=no afterclose=all"
+        answer model (s1.phase == .top && s1.errors == [0, 0] && s1.msgs.isEmpty && impl == model)
+      else if op == "oore" then
+        -- ReaderConfig.OffsetOutOfRangeError, a fetcher started beyond the log end, through the loop LTS: `initialize`'s
+        -- Seek refuses (resolved offset > last) — with the option the error goes to the application and `run` returns,
+        -- without it `run` retries for ever; a fetcher started at a stored offset afterwards is reading there
+        match fieldInt ws "option", fieldInt ws "start", fieldInt ws "first", fieldInt ws "last" with
+        | some opt, some start, some first, some last =>
+          let cfg : RCfg := { offsetOutOfRangeError := opt == 1 }
+          let s1 := rrun cfg { offset := start } [.initOk first last]
+          let s2 := rrun cfg s1 [.sleepOk, .initOk first last, .sleepOk, .initOk first last, .sleepOk, .initFail true]
+          let s3 := rrun cfg { offset := 102 } [.initOk first last]
+          let show1 (before after : RR) : String :=
+            match after.errors.drop before.errors.length with
+            | [] => "nothing"
+            | c :: _ => s!"kafka{c}"
+          let third := if s3.phase == .reading then s!"{s3.connOff}" else "nothing"
+          let model := s!"fetch1={show1 { offset := start } s1} fetch2={show1 s1 s2} after-setoffset-102={third}"
+          answer model (impl == model && (opt == 1) == (s1.phase == .stopped) && s2.msgs.isEmpty)
+        | _, _, _, _ => "bad-op"
       else if op == "earlyclose" then
         -- Batch.Close before the end of the batch: Close returned nil ⇒ the Conn is at a response boundary (the next call works)
         let iw := words impl
